@@ -112,7 +112,11 @@ def canon(v, exact=True):
         return ("sym", tuple(names), tuple(_r(x) for x in vals))
     if k == "rrt":
         regs, vals = rrt_values(v)
-        return ("rrt", tuple(regs), tuple(_r(x) for x in vals)) + ((sym.srepr(v.expr), str(getattr(v, "func_str", None)), str(v)) if exact else ())
+        if exact:
+            # bit-exact function values (the function is generated code: what it computes does not vary from run to run)
+            hx = tuple((x.real.hex(), x.imag.hex()) if isinstance(x, complex) else x for x in vals)
+            return ("rrt", tuple(regs), hx, sym.srepr(v.expr), str(getattr(v, "func_str", None)), str(v))
+        return ("rrt", tuple(regs), tuple(_r(x) for x in vals))
     if k == "n":
         return ("n",)
     if k == "d":
